@@ -174,6 +174,82 @@ ALL = [dead_branch_added_last, mux_second_input_tables, starved_regulator_before
 
 
 # ---------------------------------------------------------------------------------------------
+# Overloaded systems, one per series element that can lose its polarity: no physical operating point exists, solve() must
+# raise its documented errors (C03) - whichever element it is that gives way
+def overloads():
+    out = []
+
+    def add(name, build):
+        try:
+            out.append((name, build(), {}))
+        except Exception as e:
+            out.append((name, e, {}))
+
+    def src_rs():
+        s = System("ov1", C.Source("s", vo=5.0, rs=10.0))
+        s.add_comp("s", comp=C.ILoad("l", ii=1.0))
+        return s
+
+    def src_rs_second_source_behind_converter():
+        s = System("ov2", C.Source("a", vo=12.0))
+        s.add_comp("a", comp=C.RLoad("ra", rs=100.0))
+        s.add_source(C.Source("b", vo=3.0, rs=5.0))
+        s.add_comp("b", comp=C.Converter("cv", vo=5.0, eff=0.9))
+        s.add_comp("cv", comp=C.PLoad("p", pwr=10.0))
+        return s
+
+    def rloss():
+        s = System("ov3", C.Source("s", vo=5.0))
+        s.add_comp("s", comp=C.RLoss("r", rs=20.0))
+        s.add_comp("r", comp=C.ILoad("l", ii=1.0))
+        return s
+
+    def vloss():
+        s = System("ov4", C.Source("s", vo=-3.0))
+        s.add_comp("s", comp=C.VLoss("d", vdrop=4.0))
+        s.add_comp("d", comp=C.ILoad("l", ii=0.1))
+        return s
+
+    def pswitch():
+        s = System("ov5", C.Source("s", vo=5.0))
+        s.add_comp("s", comp=C.PSwitch("sw", rs=30.0))
+        s.add_comp("sw", comp=C.ILoad("l", ii=0.5))
+        return s
+
+    def pmux():
+        s = System("ov6", C.Source("a", vo=0.0))
+        s.add_source(C.Source("b", vo=5.0))
+        s.add_comp(["a", "b"], comp=C.PMux("m", rs=[0.1, 40.0]))
+        s.add_comp("m", comp=C.ILoad("l", ii=0.5))
+        return s
+
+    def bridge_mosfet():
+        s = System("ov7", C.Source("s", vo=-5.0))
+        s.add_comp("s", comp=C.Rectifier("b", rs=10.0))
+        s.add_comp("b", comp=C.ILoad("l", ii=0.5))
+        return s
+
+    def bridge_diode():
+        s = System("ov8", C.Source("s", vo=1.0))
+        s.add_comp("s", comp=C.Rectifier("b", vdrop=0.7))
+        s.add_comp("b", comp=C.ILoad("l", ii=0.1))
+        return s
+
+    def src_rs_in_one_phase_only():
+        s = System("ov9", C.Source("s", vo=5.0, rs=2.0))
+        s.add_comp("s", comp=C.PLoad("p", pwr=0.5))
+        s.set_sys_phases({"idle": 10.0, "burst": 1.0})
+        s.set_comp_phases("p", {"idle": 0.5, "burst": 50.0})
+        return s
+    with warnings.catch_warnings():
+        warnings.simplefilter("ignore")
+        for f in (src_rs, src_rs_second_source_behind_converter, rloss, vloss, pswitch, pmux, bridge_mosfet, bridge_diode,
+                  src_rs_in_one_phase_only):
+            add(f.__name__, f)
+    return out
+
+
+# ---------------------------------------------------------------------------------------------
 # Systems left behind by an edit HISTORY (analysed in between): every report of such a system is judged like that of any
 # other system - against its projected state (solve family), against a freshly built twin (C16), against its reloaded
 # copy (C12), as a diagram (C19).
